@@ -453,40 +453,51 @@ def compare_mapping(corr: Corr, checks, outs) -> None:
 
 
 def raw_mapping(corr: Corr, ctx, rng):
-    """Arbitrary lines through _parse_message_to_mqtt and arbitrary topics through _parse_mqtt_to_message:
-    model correspondence only (the property speaks about messages, not about malformed lines)."""
+    """Arbitrary lines through the line -> topic mapping and arbitrary topics through the topic -> line mapping:
+    model correspondence only (the property speaks about messages, not about malformed lines).  The two mappings are
+    observed where the transport's contract shows them — what `write(line)` hands to the documented `_publish` hook,
+    and what `read()` returns for a broker message handed to the documented `_receive` hook — not by calling the
+    private helpers that compute them today (they may be methods, static methods, module functions or inlined: DESIGN
+    13, false alarm 14)."""
     lines = [l for l, _ in codec.malformed_lines(rng, "quick") if not lib.has_surrogate(l) and len(l) < 200]
     rng.shuffle(lines)
     lines = lines[: (1500 if ctx.tier == "quick" else 12000)]
     lines += ["1;2;1;0;49;55.7;13.0;18\n", "1;2;1;0;49", "1;2;1;x;49;p", "1;2;1; 1 ;49;p", "a;b;c;1;e;f;g", "", ";;;;;",
               "1;2;1;١;49;p", "1;2;1;0;49;p \t\n", "1;2;1;-0;49;p", "1;2;1;1_0;49;p", "/;/;/;0;/;/"]
-    tr = MemTransport("in", "out/x")
-    ops, impl = [], []
-    for l in lines:
-        try:
-            r = tr._parse_message_to_mqtt(l)  # noqa: SLF001
-            got = ("ok", r)
-        except ValueError:
-            got = ("valueerror",)
-        except Exception as e:  # noqa: BLE001
-            got = ("foreign", type(e).__name__)
-        impl.append(got)
-        ops.append(f"topic {enc('out/x')} {enc(l)}")
-        corr.count(f"raw-line:{got[0]}")
     topics = ["", "/", "a", "a/b", "1/2/3/4", "1/2/3/4/5", "p/1/2/3/4/5", "p/q/r/1/2/3/4/5", "//1//2/", "1/2/3/4/5/",
               "é/1/2/3/4/5", "a;b/1/2/3/4/5"]
     for _ in range(200 if ctx.tier == "quick" else 3000):
         k = rng.randint(0, 9)
         topics.append("/".join(rng.choice(["", "a", "1", "+", "255", "x;y", "é"]) for _ in range(k)))
-    timpl = []
-    for tpc in topics:
-        pl = rng.choice(["", "p", "5;6", "a/b"])
-        try:   # through an instance: works whether the helper is a static method or a method
-            timpl.append(tr._parse_mqtt_to_message(tpc, pl))  # noqa: SLF001
-        except Exception as e:  # noqa: BLE001
-            timpl.append(f"<raised {type(e).__name__}>")
-        ops.append(f"line {enc(tpc)} {enc(pl)}")
-        corr.count("raw-topic:levels<5" if tpc.count("/") < 4 else "raw-topic:levels>=5")
+    payloads = [rng.choice(["", "p", "5;6", "a/b"]) for _ in topics]
+    ops, impl, timpl = [], [], []
+
+    async def through_the_hooks():
+        tr = MemTransport("in", "out/x")
+        for l in lines:
+            del tr.published[:]
+            r = await guarded(tr.write(l))         # never raises, never hangs
+            if r[0] == "ok":
+                got = ("ok", tr.published[-1]) if len(tr.published) == 1 else ("published", len(tr.published))
+            elif r == ("foreign", "ValueError"):
+                got = ("valueerror",)
+            else:
+                got = (r[0], r[1])
+            impl.append(got)
+            ops.append(f"topic {enc('out/x')} {enc(l)}")
+            corr.count(f"raw-line:{got[0]}")
+        for tpc, pl in zip(topics, payloads):
+            try:
+                tr._receive(tpc, pl)  # noqa: SLF001  documented hook
+            except Exception as e:  # noqa: BLE001
+                timpl.append(f"<raised {type(e).__name__}>")
+            else:
+                r = await guarded(tr.read())       # a message that was not queued shows as a read that stays pending
+                timpl.append(r[1] if r[0] == "ok" else (f"<raised {r[1]}>" if r[1] else "<nothing to read>"))
+            ops.append(f"line {enc(tpc)} {enc(pl)}")
+            corr.count("raw-topic:levels<5" if tpc.count("/") < 4 else "raw-topic:levels>=5")
+
+    asyncio.run(through_the_hooks())
     return ops, (lines, impl, topics, timpl)
 
 
